@@ -693,6 +693,10 @@ fn run_case(cfg: &Cfg, case: &Value, idx: usize, beat: &AtomicU64, problems: &st
         match a {
             "submit" => {
                 got = run.do_submit(&o, k == 2);
+                if !run.exact {
+                    // free mode: hand the request to the kernel (zero timeout), wait for nothing
+                    run.poll_once(0);
+                }
                 if got == "ok" && want == "exhausted" {
                     // the model's constructor failed; keep going with the real op
                 }
